@@ -12,6 +12,7 @@ package main
 
 import (
 	"fmt"
+	"math"
 	"os"
 	"reflect"
 	"sort"
@@ -20,6 +21,7 @@ import (
 	"unsafe"
 
 	"github.com/openacid/low/size"
+	"github.com/openacid/low/typehelper"
 )
 
 // ---- hand-declared types (what reflect cannot make: names, unexported fields, recursion, methods)
@@ -90,7 +92,7 @@ func c20Type(t V) reflect.Type {
 		return reflect.ArrayOf(t.L[2].Int(), c20Type(t.L[1]))
 	case 21:
 		return reflect.MapOf(c20Type(t.L[1]), c20Type(t.L[2]))
-	case 22:
+	case 22, 26:
 		return reflect.PtrTo(c20Type(t.L[1]))
 	case 20:
 		return c20Iface[t.L[1].Int()]
@@ -132,7 +134,7 @@ func c20TypeOfVal(v V) reflect.Type {
 		return reflect.ArrayOf(len(v.L[2].L), c20Type(v.L[1]))
 	case 21:
 		return reflect.MapOf(c20Type(v.L[1]), c20Type(v.L[2]))
-	case 22:
+	case 22, 26:
 		return reflect.PtrTo(c20Type(v.L[1]))
 	case 20:
 		return c20Iface[v.L[1].Int()]
@@ -147,8 +149,74 @@ func c20TypeOfVal(v V) reflect.Type {
 	return nil
 }
 
+// nodes built so far for the current top-level value, by sharing id
+var c20Shared = map[int]reflect.Value{}
+var c20SharedText = map[int]string{}
+
+// the heap cells built so far for the current size.Of/heap case: cell a is *c20Cells[a]
+var c20Cells []reflect.Value
+
+// the keys of every map built for the current value, in the order of the text
+var c20MapKeys = map[uintptr][]reflect.Value{}
+
+// c20ShareID returns the sharing id of a slice / map / pointer node (0 = none):
+// one more trailing element after the regular ones.
+func c20ShareID(v V, regular int) int {
+	if len(v.L) == regular+1 {
+		id := v.L[regular].Int()
+		if id <= 0 {
+			c20Fatal("sharing id must be > 0")
+		}
+		return id
+	}
+	return 0
+}
+
 // c20Build builds a value of type t from its description.
 func c20Build(v V, t reflect.Type) reflect.Value {
+	if !v.IsList() || len(v.L) == 0 || v.L[0].IsList() {
+		c20Fatal("bad value")
+	}
+	id := 0
+	switch v.L[0].Int() {
+	case 26:
+		// [26, T, a]: the pointer to heap cell a (size.Of/heap)
+		a := v.L[2].Int()
+		if a < 0 || a >= len(c20Cells) {
+			c20Fatal("reference to cell %d, %d cells built", a, len(c20Cells))
+		}
+		if c20Cells[a].Type() != t {
+			c20Fatal("reference to cell %d of type %s where %s is expected", a, c20Cells[a].Type(), t)
+		}
+		return c20Cells[a]
+	case 23:
+		id = c20ShareID(v, 4)
+	case 21:
+		id = c20ShareID(v, 5)
+	case 22:
+		id = c20ShareID(v, 3)
+	}
+	if id != 0 {
+		if old, ok := c20Shared[id]; ok {
+			if old.Type() != t {
+				c20Fatal("shared node %d used at two types: %s and %s", id, old.Type(), t)
+			}
+			if c20SharedText[id] != c20Dump(v) {
+				// (the shrinker may cut one occurrence only: not a value the text describes)
+				c20Fatal("shared node %d has two different texts", id)
+			}
+			return old
+		}
+	}
+	r := c20Build1(v, t)
+	if id != 0 {
+		c20Shared[id] = r
+		c20SharedText[id] = c20Dump(v)
+	}
+	return r
+}
+
+func c20Build1(v V, t reflect.Type) reflect.Value {
 	if !v.IsList() || len(v.L) == 0 || v.L[0].IsList() {
 		c20Fatal("bad value")
 	}
@@ -169,7 +237,9 @@ func c20Build(v V, t reflect.Type) reflect.Value {
 	case k == 15 || k == 16:
 		r.SetComplex(complex(float64(v.L[1].I64()), 2))
 	case k == 24:
-		r.SetString(v.L[1].Str())
+		// a substring of a longer string (the bytes around it must not count)
+		str := v.L[1].Str()
+		r.SetString(("<" + str + ">>")[1 : 1+len(str)])
 	case k == 23:
 		if v.L[2].Z.Sign() != 0 {
 			if len(v.L[3].L) != 0 {
@@ -178,7 +248,11 @@ func c20Build(v V, t reflect.Type) reflect.Value {
 			return r // nil slice
 		}
 		n := len(v.L[3].L)
-		s := reflect.MakeSlice(t, n, n+n%3) // spare capacity must not count
+		// spare capacity and elements outside [0,len) must not count: the slice is a
+		// window [off, off+n) of a larger backing array, cap > len in 2 cases of 3
+		off := n % 2
+		big := reflect.MakeSlice(t, off+n+(n+1)%3, off+n+(n+1)%3+n%2)
+		s := big.Slice(off, off+n)
 		for i, e := range v.L[3].L {
 			s.Index(i).Set(c20Build(e, t.Elem()))
 		}
@@ -198,9 +272,13 @@ func c20Build(v V, t reflect.Type) reflect.Value {
 			return r // nil map
 		}
 		m := reflect.MakeMap(t)
+		keys := []reflect.Value{}
 		for _, kv := range v.L[4].L {
-			m.SetMapIndex(c20Build(kv.L[0], t.Key()), c20Build(kv.L[1], t.Elem()))
+			key := c20Build(kv.L[0], t.Key())
+			keys = append(keys, key)
+			m.SetMapIndex(key, c20Build(kv.L[1], t.Elem()))
 		}
+		c20MapKeys[m.Pointer()] = keys
 		if m.Len() != len(v.L[4].L) {
 			c20Fatal("duplicate map keys in a generated case: %v", c20Dump(v))
 		}
@@ -255,6 +333,10 @@ func c20Arg(v V) (data interface{}) {
 			c20Fatal("cannot build the value: %v", e)
 		}
 	}()
+	c20Shared = map[int]reflect.Value{}
+	c20SharedText = map[int]string{}
+	c20MapKeys = map[uintptr][]reflect.Value{}
+	c20Cells = nil
 	if v.IsList() && len(v.L) == 1 && !v.L[0].IsList() && v.L[0].Z.Sign() == 0 {
 		return nil
 	}
@@ -262,6 +344,336 @@ func c20Arg(v V) (data interface{}) {
 		c20Fatal("top-level value of interface kind")
 	}
 	return c20Build(v, c20TypeOfVal(v)).Interface()
+}
+
+
+// ---- labels for the full report of Stat (see Run/C20.v, dec_l)
+
+// c20PtrInside: does the %s text of a map key show an address?
+func c20PtrInside(rv reflect.Value) bool {
+	switch rv.Kind() {
+	case reflect.Ptr:
+		return !rv.IsNil()
+	case reflect.Interface:
+		return !rv.IsNil() && c20PtrInside(rv.Elem())
+	case reflect.Struct:
+		for i := 0; i < rv.NumField(); i++ {
+			if c20PtrInside(rv.Field(i)) {
+				return true
+			}
+		}
+	case reflect.Array:
+		for i := 0; i < rv.Len(); i++ {
+			if c20PtrInside(rv.Index(i)) {
+				return true
+			}
+		}
+	}
+	return false
+}
+
+// c20Label walks the text and the BUILT value in parallel and writes the label tree:
+// [x<type>, [[x<edge>, label], ...]].  stable = false when a label cannot be reproduced by
+// building the value again (a map key whose %s text contains an address) or contains a newline.
+func c20Label(v V, rv reflect.Value, stable *bool) string {
+	k := v.L[0].Int()
+	if reflect.Kind(k) != rv.Kind() {
+		c20Fatal("label: kind %d but the value is a %s", k, rv.Kind())
+	}
+	ty := rv.Type().String()
+	if strings.ContainsAny(ty, "\n") {
+		*stable = false
+	}
+	kid := func(edge string, sub V, x reflect.Value) string {
+		if strings.ContainsAny(edge, "\n") {
+			*stable = false
+		}
+		return L(Str(edge), c20Label(sub, x, stable))
+	}
+	kids := []string{}
+	switch k {
+	case 23, 17:
+		elems := v.L[len(v.L)-1]
+		if k == 23 {
+			elems = v.L[3]
+		} else {
+			elems = v.L[2]
+		}
+		if rv.Len() != len(elems.L) {
+			c20Fatal("label: length")
+		}
+		for i, e := range elems.L {
+			kids = append(kids, kid("", e, rv.Index(i)))
+		}
+	case 21:
+		if len(v.L[4].L) != rv.Len() {
+			c20Fatal("label: map length")
+		}
+		if rv.Len() > 0 {
+			keys := c20MapKeys[rv.Pointer()]
+			if len(keys) != rv.Len() {
+				c20Fatal("label: map keys were not recorded")
+			}
+			for i, kv := range v.L[4].L {
+				if c20PtrInside(keys[i]) {
+					*stable = false
+				}
+				x := rv.MapIndex(keys[i])
+				if !x.IsValid() {
+					c20Fatal("label: key %d is not in the map", i)
+				}
+				kids = append(kids, kid(fmt.Sprintf("%s", keys[i]), kv.L[1], x))
+			}
+		}
+	case 22:
+		if (len(v.L[2].L) == 0) != rv.IsNil() {
+			c20Fatal("label: nil pointer")
+		}
+		if !rv.IsNil() {
+			if rv.Type() == reflect.TypeOf((*c20IntRead)(nil)) {
+				// written as a pointer to an int32 scalar
+				kids = append(kids, L("x", L(Str(rv.Elem().Type().String()), L())))
+			} else {
+				kids = append(kids, kid("", v.L[2].L[0], rv.Elem()))
+			}
+		}
+	case 20:
+		if (len(v.L[2].L) == 0) != rv.IsNil() {
+			c20Fatal("label: nil interface")
+		}
+		if !rv.IsNil() {
+			kids = append(kids, kid("", v.L[2].L[0], rv.Elem()))
+		}
+	case 25:
+		if len(v.L[1].L) != rv.NumField() {
+			c20Fatal("label: struct field count")
+		}
+		for i, fv := range v.L[1].L {
+			kids = append(kids, kid(rv.Type().Field(i).Name, fv, rv.Field(i)))
+		}
+	}
+	return L(Str(ty), L(kids...))
+}
+
+// c20Labels builds the value of a text and returns its label tree
+func c20Labels(v V) (lab string, stable bool) {
+	data := c20Arg(v)
+	if data == nil {
+		return L(), true
+	}
+	stable = true
+	lab = c20Label(v, reflect.ValueOf(data), &stable)
+	return
+}
+
+// c20Det mirrors det_text / det_lines of Spec/SizeStatSpec.v: is the text / the set of lines of
+// Stat(v, depth, maxItem) independent of Go's random map order?  Also reports what the limits cut.
+type c20DetInfo struct {
+	text, lines      bool
+	cutDepth, cutMax bool
+	listed           int
+}
+
+func (d *c20DetInfo) walk(v V, depth, maxItem int) {
+	d.listed++
+	k := v.L[0].Int()
+	if depth == 0 {
+		if k >= 17 && k != 24 {
+			d.cutDepth = true
+		}
+		return
+	}
+	depth--
+	items := func(elems []V, get func(e V) V) {
+		for i, e := range elems {
+			if i >= maxItem {
+				d.cutMax = true
+				break
+			}
+			d.walk(get(e), depth, maxItem)
+		}
+	}
+	switch k {
+	case 23:
+		items(v.L[3].L, func(e V) V { return e })
+	case 17:
+		items(v.L[2].L, func(e V) V { return e })
+	case 21:
+		n := len(v.L[4].L)
+		if maxItem >= 1 {
+			if n >= 2 {
+				d.text = false
+			}
+			if n >= 2 && n > maxItem {
+				d.lines = false
+			}
+		}
+		items(v.L[4].L, func(e V) V { return e.L[1] })
+	case 22:
+		for _, e := range v.L[2].L {
+			d.walk(e, depth, maxItem)
+		}
+	case 20:
+		if len(v.L[2].L) == 0 {
+			d.listed++ // the "<nil>" line
+		}
+		for _, e := range v.L[2].L {
+			d.walk(e, depth, maxItem)
+		}
+	case 25:
+		for _, e := range v.L[1].L {
+			d.walk(e, depth, maxItem)
+		}
+	}
+}
+
+
+// ---- Go value -> value text (the inverse of c20Build; used for typehelper.ToSlice, whose RESULT is
+// compared as a text, and as a round-trip check of the builder)
+
+func c20TypeText(t reflect.Type) string {
+	switch t {
+	case reflect.TypeOf(c20My{}):
+		return L(Int(c20KMy))
+	case reflect.TypeOf(c20AB{}):
+		return L(Int(c20KAB))
+	case reflect.TypeOf(c20RI{}):
+		return L(Int(c20KRI))
+	case reflect.TypeOf(c20UU{}):
+		return L(Int(c20KUU))
+	}
+	k := int(t.Kind())
+	switch {
+	case k <= 16 || k == 24:
+		return L(Int(k))
+	case k == 23 || k == 22:
+		return L(Int(k), c20TypeText(t.Elem()))
+	case k == 17:
+		return L("17", c20TypeText(t.Elem()), Int(t.Len()))
+	case k == 21:
+		return L("21", c20TypeText(t.Key()), c20TypeText(t.Elem()))
+	case k == 20:
+		if t == c20Iface[0] {
+			return L("20", "0")
+		}
+		return L("20", "1")
+	case k == 25:
+		xs := make([]string, t.NumField())
+		for i := range xs {
+			xs[i] = c20TypeText(t.Field(i).Type)
+		}
+		return L("25", L(xs...))
+	}
+	c20Fatal("type text: %s", t)
+	return ""
+}
+
+func c20Ser(rv reflect.Value) string {
+	k := int(rv.Kind())
+	switch {
+	case k == 1:
+		return L("1", B(rv.Bool()))
+	case k >= 2 && k <= 6:
+		return L(Int(k), I(rv.Int()))
+	case k >= 7 && k <= 12:
+		return L(Int(k), strconv.FormatUint(rv.Uint(), 10))
+	case k == 13 || k == 14:
+		return L(Int(k), I(int64(rv.Float())))
+	case k == 15 || k == 16:
+		return L(Int(k), I(int64(real(rv.Complex()))))
+	case k == 24:
+		return L("24", Str(rv.String()))
+	case k == 23 || k == 17:
+		xs := make([]string, rv.Len())
+		for i := range xs {
+			xs[i] = c20Ser(rv.Index(i))
+		}
+		if k == 17 {
+			return L("17", c20TypeText(rv.Type().Elem()), L(xs...))
+		}
+		return L("23", c20TypeText(rv.Type().Elem()), B(rv.IsNil()), L(xs...))
+	case k == 21:
+		xs := []string{}
+		for _, key := range rv.MapKeys() {
+			xs = append(xs, L(c20Ser(key), c20Ser(rv.MapIndex(key))))
+		}
+		sort.Strings(xs) // canonical order
+		return L("21", c20TypeText(rv.Type().Key()), c20TypeText(rv.Type().Elem()), B(rv.IsNil()), L(xs...))
+	case k == 22:
+		if rv.IsNil() {
+			return L("22", c20TypeText(rv.Type().Elem()), L())
+		}
+		return L("22", c20TypeText(rv.Type().Elem()), L(c20Ser(rv.Elem())))
+	case k == 20:
+		w := "1"
+		if rv.Type() == c20Iface[0] {
+			w = "0"
+		}
+		if rv.IsNil() {
+			return L("20", w, L())
+		}
+		return L("20", w, L(c20Ser(rv.Elem())))
+	case k == 25:
+		xs := make([]string, rv.NumField())
+		for i := range xs {
+			xs[i] = c20Ser(rv.Field(i))
+		}
+		return L("25", L(xs...))
+	}
+	c20Fatal("serialize: kind %s", rv.Kind())
+	return ""
+}
+
+// c20SerTop: an interface{} argument / result
+func c20SerTop(data interface{}) string {
+	if data == nil {
+		return "[0]"
+	}
+	return c20Ser(reflect.ValueOf(data))
+}
+
+// c20Canon: the canonical text of the value a text describes (no sharing ids, payloads as the
+// serializer prints them, map entries sorted).  A fixed point of build-then-serialize.
+func c20Canon(text string) string {
+	v, err := ParseVal(text)
+	if err != nil {
+		c20Fatal("canon: %v", err)
+	}
+	return c20SerTop(c20Arg(v))
+}
+
+// c20CanonArg builds the argument and insists that the text is canonical
+func c20CanonArg(v V) interface{} {
+	data := c20Arg(v)
+	got, err := ParseVal(c20SerTop(data))
+	if err != nil || c20Dump(got) != c20Dump(v) {
+		c20Fatal("the value text is not canonical (serialize(build(text)) differs):\n%s\n%s", c20Dump(v), c20Dump(got))
+	}
+	return data
+}
+
+
+// c20HeapArg builds the cells in order (cell a may refer to cells below a), then the root
+func c20HeapArg(cells, root V) (data interface{}) {
+	defer func() {
+		if e := recover(); e != nil {
+			c20Fatal("cannot build the heap value: %v", e)
+		}
+	}()
+	c20Shared = map[int]reflect.Value{}
+	c20SharedText = map[int]string{}
+	c20MapKeys = map[uintptr][]reflect.Value{}
+	c20Cells = nil
+	for _, c := range cells.L { // [T, value]
+		t := c20Type(c.L[0])
+		p := reflect.New(t)
+		p.Elem().Set(c20Build(c.L[1], t))
+		c20Cells = append(c20Cells, p)
+	}
+	if root.L[0].Int() == 20 {
+		c20Fatal("top-level value of interface kind")
+	}
+	return c20Build(root, c20TypeOfVal(root)).Interface()
 }
 
 func init() {
@@ -293,6 +705,72 @@ func init() {
 			return L(Str(first))
 		}
 		return L(I(n))
+	}
+	// the whole report.  args: value, labels, depth, maxItem, AvgOf, [] | [k] (AvgUnit = 2^k)
+	c20Stat := func(a []V) string {
+		data := c20Arg(a[0])
+		if data != nil {
+			// the labels given to the model must be the ones of THIS value (a shrunk or edited
+			// case whose labels do not fit is not a case)
+			stable := true
+			lab, err := ParseVal(c20Label(a[0], reflect.ValueOf(data), &stable))
+			if err != nil || c20Dump(lab) != c20Dump(a[1]) {
+				c20Fatal("labels do not fit the value:\n%s\n%s", c20Dump(lab), c20Dump(a[1]))
+			}
+		}
+		avgOf := a[4].Int()
+		if avgOf == 0 && len(a[5].L) == 0 {
+			return size.Stat(data, a[2].Int(), a[3].Int())
+		}
+		opt := size.Opt{AvgOf: avgOf}
+		if len(a[5].L) == 1 {
+			opt.AvgUnit = math.Ldexp(1, a[5].L[0].Int())
+		}
+		return size.Stat(data, a[2].Int(), a[3].Int(), opt)
+	}
+	Exec["size.Stat/text"] = func(a []V) string { return Str(c20Stat(a)) }
+	Exec["size.Stat/opts"] = func(a []V) string {
+		data := c20Arg(a[0])
+		if data != nil {
+			stable := true
+			lab, err := ParseVal(c20Label(a[0], reflect.ValueOf(data), &stable))
+			if err != nil || c20Dump(lab) != c20Dump(a[1]) {
+				c20Fatal("labels do not fit the value")
+			}
+		}
+		opts := []interface{}{}
+		for _, o := range a[4].L {
+			switch o.L[0].Int() {
+			case 0:
+				opt := size.Opt{AvgOf: o.L[1].Int()}
+				if len(o.L[2].L) == 1 {
+					opt.AvgUnit = math.Ldexp(1, o.L[2].L[0].Int())
+				}
+				opts = append(opts, opt)
+			case 1:
+				opts = append(opts, 5)
+			default:
+				opts = append(opts, &size.Opt{AvgOf: 3})
+			}
+		}
+		return Str(size.Stat(data, a[2].Int(), a[3].Int(), opts...))
+	}
+	Exec["size.Stat/sorted"] = func(a []V) string {
+		lines := strings.Split(c20Stat(a), "\n")
+		sort.Strings(lines)
+		return Strs(lines)
+	}
+	// typehelper.ToSlice: the result written back as a value text
+	Exec["typehelper.ToSlice"] = func(a []V) string {
+		data := c20CanonArg(a[0])
+		return c20SerTop(typehelper.ToSlice(data))
+	}
+	Exec["typehelper.ToSlice+size.Of"] = func(a []V) string {
+		data := c20CanonArg(a[0])
+		return Int(size.Of(typehelper.ToSlice(data)))
+	}
+	Exec["size.Of/heap"] = func(a []V) string {
+		return Int(size.Of(c20HeapArg(a[0], a[1])))
 	}
 	Register("C20", genC20)
 }
@@ -453,6 +931,42 @@ func c20RandType(r *Rand, depth int, comparable bool) *c20T {
 type c20Gen struct {
 	r      *Rand
 	budget int // remaining nodes; when exhausted every nil-able container becomes nil
+	// sharing: non-nil slices / maps / pointers already generated for the current
+	// case that carry a sharing id, by type text; a later node of the same type
+	// may reuse one of them (same text, same id => the SAME Go object)
+	pool   map[string][]string
+	cells  map[string][]int // size.Of/heap: heap cells generated so far, by type text
+	nRefs  int
+	nextID int
+	share  int // 0 = never share; otherwise 1 node in `share` gets an id / reuses one
+}
+
+func (c *c20Gen) reset(share int) {
+	c.pool = map[string][]string{}
+	c.cells = map[string][]int{}
+	c.nRefs = 0
+	c.nextID = 0
+	c.share = share
+}
+
+// reuse returns an already generated shared node of this type, if the dice say so
+func (c *c20Gen) reuse(ty string) (string, bool) {
+	if c.share == 0 || len(c.pool[ty]) == 0 || c.r.Intn(c.share) != 0 {
+		return "", false
+	}
+	return c.pool[ty][c.r.Intn(len(c.pool[ty]))], true
+}
+
+// fresh wraps up a newly generated node (its elements without the closing
+// bracket are in parts); 1 in `share` gets a sharing id and enters the pool
+func (c *c20Gen) fresh(ty string, parts ...string) string {
+	if c.share == 0 || c.r.Intn(c.share) != 0 {
+		return L(parts...)
+	}
+	c.nextID++
+	text := L(append(parts, Int(c.nextID))...)
+	c.pool[ty] = append(c.pool[ty], text)
+	return text
 }
 
 func c20Str(r *Rand) string {
@@ -477,12 +991,15 @@ func (c *c20Gen) val(t *c20T, depth int) string {
 		if out || r.Intn(7) == 0 {
 			return L("23", t.Elem.Text(), "1", L())
 		}
+		if old, ok := c.reuse(t.Text()); ok {
+			return old
+		}
 		n := r.Pick(0, 1, 1, 2, 2, 3, 4, 6)
 		xs := make([]string, n)
 		for i := range xs {
 			xs[i] = c.val(t.Elem, depth-1)
 		}
-		return L("23", t.Elem.Text(), "0", L(xs...))
+		return c.fresh(t.Text(), "23", t.Elem.Text(), "0", L(xs...))
 	case t.K == 17:
 		xs := make([]string, t.N)
 		for i := range xs {
@@ -493,17 +1010,27 @@ func (c *c20Gen) val(t *c20T, depth int) string {
 		if out || r.Intn(7) == 0 {
 			return L("21", t.Key.Text(), t.Elem.Text(), "1", L())
 		}
+		if old, ok := c.reuse(t.Text()); ok {
+			return old
+		}
 		n := minInt(r.Pick(0, 1, 1, 2, 3, 4), t.Key.keyCap())
 		xs := make([]string, n)
 		for i := range xs {
 			xs[i] = L(c.key(t.Key, i, depth-1), c.val(t.Elem, depth-1))
 		}
-		return L("21", t.Key.Text(), t.Elem.Text(), "0", L(xs...))
+		return c.fresh(t.Text(), "21", t.Key.Text(), t.Elem.Text(), "0", L(xs...))
 	case t.K == 22:
 		if out || r.Intn(5) == 0 {
 			return L("22", t.Elem.Text(), L())
 		}
-		return L("22", t.Elem.Text(), L(c.val(t.Elem, depth-1)))
+		if cs := c.cells[t.Elem.Text()]; len(cs) > 0 && r.Intn(4) != 0 {
+			c.nRefs++
+			return L("26", t.Elem.Text(), Int(cs[r.Intn(len(cs))]))
+		}
+		if old, ok := c.reuse(t.Text()); ok {
+			return old
+		}
+		return c.fresh(t.Text(), "22", t.Elem.Text(), L(c.val(t.Elem, depth-1)))
 	case t.K == 20:
 		if out || r.Intn(4) == 0 {
 			return L("20", Int(t.W), L())
@@ -591,6 +1118,7 @@ type c20Shape struct {
 	nils  map[string]bool
 	uint_ bool
 	nodes int
+	ids   map[int]int // sharing id -> number of occurrences
 }
 
 var c20KindName = map[int]string{17: "A", 20: "I", 21: "M", 22: "P", 23: "S", 24: "s", 25: "T"}
@@ -608,6 +1136,9 @@ func (s *c20Shape) walk(v V, d int) {
 		s.depth = d + 1
 	}
 	s.kinds[c20KindName[k]] = true
+	if reg := map[int]int{23: 4, 21: 5, 22: 3}[k]; reg != 0 && len(v.L) == reg+1 {
+		s.ids[v.L[reg].Int()]++
+	}
 	switch k {
 	case 23:
 		if v.L[2].Z.Sign() != 0 {
@@ -670,15 +1201,66 @@ func c20Key(text string) (string, int) {
 	if len(v.L) == 1 {
 		return "", 0
 	}
-	s := &c20Shape{kinds: map[string]bool{}, nils: map[string]bool{}}
+	s := &c20Shape{kinds: map[string]bool{}, nils: map[string]bool{}, ids: map[int]int{}}
 	s.walk(v, 0)
 	if s.depth < 2 {
 		return "", s.depth
 	}
-	return fmt.Sprintf("d%d/%s/nil:%s/u%s", minInt(s.depth, 6), c20Set(s.kinds), c20Set(s.nils), B(s.uint_)), s.depth
+	sh := ""
+	for _, n := range s.ids {
+		if n >= 2 {
+			sh = "/shared"
+		}
+	}
+	return fmt.Sprintf("d%d/%s/nil:%s/u%s%s", minInt(s.depth, 6), c20Set(s.kinds), c20Set(s.nils), B(s.uint_), sh), s.depth
 }
 
 func genC20(g *Gen) {
+	// one whole-report case: size.Stat/text where the text is determined, size.Stat/sorted where only the
+	// order of the blocks is random, nothing where the choice of the listed map entries is random
+	report := func(text string, v V, lab, key string, d, m, avg int, unit string) {
+		det := &c20DetInfo{text: true, lines: true}
+		if len(v.L) > 1 {
+			det.walk(v, d, m)
+		}
+		op := "size.Stat/text"
+		switch {
+		case det.text:
+			g.Stat("report-text")
+		case det.lines:
+			op = "size.Stat/sorted"
+			g.Stat("report-sorted")
+		default:
+			g.Stat("report-skipped-random-map-order")
+			return
+		}
+		rk := ""
+		if det.listed >= 3 || avg > 0 {
+			rk = fmt.Sprintf("%s/report%d,%d/cutD%s/cutM%s/avg%s/%s", key, minInt(d, 5), minInt(m, 6), B(det.cutDepth), B(det.cutMax), B(avg > 0), op[10:])
+		}
+		g.Do(op, L(text, lab, Int(d), Int(m), Int(avg), unit), rk)
+		// the variadic options: 0..3 of them, an Opt / an int / a *Opt
+		if det.text && g.R.Intn(6) == 0 {
+			n := g.R.Pick(0, 1, 1, 2, 2, 3)
+			opts := make([]string, n)
+			kinds := ""
+			for i := range opts {
+				switch g.R.Pick(0, 0, 0, 1, 2) {
+				case 0:
+					opts[i] = L("0", Int(g.R.Pick(0, 1, 3, 10, 1000)), []string{L(), L("-3"), L("2")}[g.R.Intn(3)])
+					kinds += "O"
+				case 1:
+					opts[i] = L("1")
+					kinds += "i"
+				default:
+					opts[i] = L("2")
+					kinds += "p"
+				}
+			}
+			g.Stat("report-opts")
+			g.Do("size.Stat/opts", L(text, lab, Int(d), Int(m), L(opts...)), "opts/"+kinds)
+		}
+	}
 	emit := func(text, bucket string) {
 		key, depth := c20Key(text)
 		g.Stat(bucket)
@@ -690,8 +1272,62 @@ func genC20(g *Gen) {
 			sk = fmt.Sprintf("%s/stat%d,%d", key, d, m)
 		}
 		g.Do("size.Stat", L(text, Int(d), Int(m)), sk)
+
+		// the whole report, where it does not depend on Go's random map order
+		v, err := ParseVal(text)
+		if err != nil {
+			c20Fatal("generated text does not parse: %v", err)
+		}
+		lab, stable := c20Labels(v)
+		if !stable {
+			g.Stat("report-skipped-unstable-label")
+			return
+		}
+		d, m = g.R.Pick(0, 1, 1, 2, 2, 3, 4, 10, -1, -1, -7), g.R.Pick(0, 1, 1, 2, 3, 5, 100, 100, -1)
+		det := &c20DetInfo{text: true, lines: true}
+		if len(v.L) > 1 {
+			det.walk(v, d, m)
+		}
+		if !det.lines {
+			// look for limits under which the map order cannot show
+			d, m = g.R.Pick(1, 2, 3, -1), 100
+		}
+		avg, unit := 0, L()
+		if g.R.Intn(3) == 0 {
+			avg = g.R.Pick(1, 2, 3, 7, 10, 100, 1000, 4096, 1<<20+1, 1<<40, g.R.Range(1, 1<<16), -5)
+			unit = []string{L(), L("0"), L("-3"), L("3"), L("1"), L("-10")}[g.R.Pick(0, 0, 1, 2, 2, 3, 4, 5)]
+		}
+		report(text, v, lab, key, d, m, avg, unit)
+	}
+	// typehelper.ToSlice (and size.Of of its result) on the canonical text of a value
+	toSlice := func(text, bucket string) {
+		canon := c20Canon(text)
+		key, _ := c20Key(canon)
+		v, _ := ParseVal(canon)
+		tk := ""
+		if len(v.L) > 1 && v.L[0].Int() == 23 {
+			n := len(v.L[3].L)
+			ek := v.L[1].L[0].Int()
+			if n >= 2 || key != "" {
+				tk = fmt.Sprintf("toslice/n%d/elem%d/nil%d/%s", minInt(n, 8), ek, v.L[2].Int(), key)
+			}
+			g.Stat("toslice-slice")
+		} else {
+			g.Stat("toslice-not-a-slice")
+		}
+		g.Stat(bucket)
+		g.Do("typehelper.ToSlice", L(canon), tk)
+		g.Do("typehelper.ToSlice+size.Of", L(canon), tk)
+	}
+	emit0 := emit
+	emit = func(text, bucket string) {
+		emit0(text, bucket)
+		if strings.HasPrefix(text, "[23,") || g.R.Intn(10) == 0 {
+			toSlice(text, "toslice-from-"+strings.SplitN(bucket, "-", 2)[0])
+		}
 	}
 	gen := &c20Gen{r: g.R, budget: 1 << 30}
+	gen.reset(0)
 
 	// (1) nil; every scalar kind; every string length 0..40
 	emit("[0]", "exh-scalar")
@@ -817,10 +1453,294 @@ func genC20(g *Gen) {
 	}
 	g.Exhaust = append(g.Exhaust, fmt.Sprintf("two levels: all %dx%d compositions of the container shapes over %d leaf types", len(all), len(all), len(inner)))
 
+
+	// (3b) SHARING: the same pointer / slice / map reached twice is counted twice (size.Of is a
+	// tree sum over the unfolding).  Every sharing pattern over every leaf type and some composites.
+	type tv struct {
+		t *c20T
+		v func(i int) string
+	}
+	elems := []tv{}
+	for _, e := range leaves {
+		e := e
+		elems = append(elems, tv{e, func(i int) string { return leafVal(e, i) }})
+	}
+	strT, i8T := c20S(24), c20S(3)
+	elems = append(elems,
+		tv{&c20T{K: 25, Fields: []*c20T{strT, i8T}}, func(i int) string { return L("25", L(leafVal(strT, i), leafVal(i8T, i))) }},
+		tv{&c20T{K: 23, Elem: i8T}, func(i int) string { return L("23", "[3]", "0", L(leafVal(i8T, i), leafVal(i8T, i+1))) }},
+		tv{&c20T{K: 17, Elem: strT, N: 2}, func(i int) string { return L("17", "[24]", L(leafVal(strT, i), leafVal(strT, i+5))) }},
+		tv{&c20T{K: 22, Elem: c20S(7)}, func(i int) string { return L("22", "[7]", L(leafVal(c20S(7), i))) }},
+		tv{&c20T{K: 20}, func(i int) string { return L("20", "0", L(leafVal(strT, i))) }},
+	)
+	nShare := 0
+	for _, e := range elems {
+		T := e.t.Text()
+		PT := L("22", T)
+		p := func(i, id int) string { // pointer to the i-th value, sharing id (0 = unshared)
+			if id == 0 {
+				return L("22", T, L(e.v(i)))
+			}
+			return L("22", T, L(e.v(i)), Int(id))
+		}
+		sl := func(id int) string { return L("23", T, "0", L(e.v(0), e.v(1)), Int(id)) }
+		mp := func(id int) string {
+			return L("21", "[24]", T, "0", L(L(L("24", Str("k")), e.v(0)), L(L("24", Str("key2")), e.v(1))), Int(id))
+		}
+		S := L("25", L(PT)) // struct{F0 *T}
+		node := func(inner string, id int) string { // *struct{F0 *T}
+			if id == 0 {
+				return L("22", S, L(L("25", L(inner))))
+			}
+			return L("22", S, L(L("25", L(inner))), Int(id))
+		}
+		cases := []string{
+			// same pointer twice / three times in a slice; mixed with an equal but distinct one
+			L("23", PT, "0", L(p(0, 1), p(0, 1))),
+			L("23", PT, "0", L(p(0, 1), p(0, 0), p(0, 1), p(0, 1))),
+			L("23", PT, "0", L(p(0, 1), p(1, 2), p(0, 1), p(1, 2))),
+			// array, struct fields, pointer to such a struct
+			L("17", PT, L(p(0, 1), p(0, 1))),
+			L("25", L(p(0, 1), "[1,1]", p(0, 1))),
+			L("22", L("25", L(PT, PT)), L(L("25", L(p(0, 3), p(0, 3))))),
+			// a field and an interface holding the same pointer (both orders)
+			L("25", L(p(0, 1), L("20", "0", L(p(0, 1))))),
+			L("25", L(L("20", "0", L(p(0, 1))), p(0, 1))),
+			L("23", "[20,0]", "0", L(L("20", "0", L(p(0, 1))), L("20", "0", L(p(0, 1))))),
+			// two map values; a map value and a field
+			L("21", "[24]", PT, "0", L(L(L("24", Str("a")), p(0, 1)), L(L("24", Str("bb")), p(0, 1)))),
+			L("25", L(L("21", "[5]", PT, "0", L(L("[5,1]", p(0, 1)))), p(0, 1))),
+			// diamond: two distinct nodes sharing a successor; the same node twice (shared at both levels)
+			L("25", L(node(p(0, 1), 0), node(p(0, 1), 0))),
+			L("25", L(node(p(0, 1), 2), node(p(0, 1), 2))),
+			L("23", L("22", S), "0", L(node(p(0, 1), 2), node(p(0, 1), 3), node(p(0, 1), 2))),
+			// pointer to pointer: shared outer; distinct outers sharing the inner
+			L("23", L("22", PT), "0", L(L("22", PT, L(p(0, 1)), "2"), L("22", PT, L(p(0, 1)), "2"))),
+			L("23", L("22", PT), "0", L(L("22", PT, L(p(0, 1))), L("22", PT, L(p(0, 1))))),
+			// the pointer at two depths
+			L("25", L(p(0, 1), L("23", PT, "0", L(p(0, 1))))),
+			// the same slice / the same map twice
+			L("25", L(sl(1), sl(1))),
+			L("23", L("23", T), "0", L(sl(1), sl(1), sl(1))),
+			L("25", L(mp(1), mp(1))),
+			L("17", L("21", "[24]", T), L(mp(1), mp(1))),
+		}
+		for _, c := range cases {
+			emit(c, "exh-sharing")
+			nShare++
+		}
+	}
+	g.Exhaust = append(g.Exhaust, fmt.Sprintf("sharing: 21 patterns (same pointer twice in a slice/array/struct/map, in a field and in an interface, diamonds, shared **T, shared slices and maps) x %d element types", len(elems)))
+
+
+	// (3d) typehelper.ToSlice: slices of every leaf type and of some composites, every length 0..6, with
+	// pairwise distinct elements (order and count are visible), and with a repeated element; nil slices;
+	// and what is not a slice: nil, array, pointer to slice, string, map, struct, scalar
+	for _, e := range elems {
+		T := e.t.Text()
+		for n := 0; n <= 6; n++ {
+			toSlice(L("23", T, "0", rep(n, e.v)), "exh-toslice")
+		}
+		toSlice(L("23", T, "0", L(e.v(1), e.v(0), e.v(1), e.v(1))), "exh-toslice")
+		toSlice(L("23", T, "1", L()), "exh-toslice")
+		toSlice(L("17", T, rep(2, e.v)), "exh-toslice")
+		toSlice(L("22", L("23", T), L(L("23", T, "0", rep(2, e.v)))), "exh-toslice")
+		toSlice(L("21", "[5]", T, "0", L(L("[5,1]", e.v(0)))), "exh-toslice")
+		toSlice(L("25", L(L("23", T, "0", rep(2, e.v)))), "exh-toslice")
+		if e.t.K != 20 {
+			toSlice(e.v(0), "exh-toslice")
+		}
+	}
+	toSlice("[0]", "exh-toslice")
+	// slices of interface values: nil and non-nil slots, both interface types
+	toSlice(L("23", "[20,0]", "0", L("[20,0,[]]", "[20,0,[[24,x6162]]]", "[20,0,[]]", "[20,0,[[22,[3],[[3,5]]]]]", "[20,0,[[22,[3],[]]]]")), "exh-toslice")
+	toSlice(L("23", "[20,1]", "0", L("[20,1,[[22,[5],[[5,7]]]]]", "[20,1,[]]", "[20,1,[[22,[5],[[5,8]]]]]")), "exh-toslice")
+	g.Exhaust = append(g.Exhaust, fmt.Sprintf("ToSlice: slices of length 0..6 with distinct elements, a repeated element, nil slices and 6 kinds of non-slices over %d element types; slices of nil / non-nil interface values", len(elems)))
+
+
+	// (3e) size.Of/heap: values that share pointers, written as an ordered heap + a root
+	heapCase := func(cells []string, root, bucket string) {
+		refs, nested := strings.Count(root, "[26,"), 0
+		for _, c := range cells {
+			nested += strings.Count(c, "[26,")
+		}
+		g.Stat(bucket)
+		g.Do("size.Of/heap", L(L(cells...), root), fmt.Sprintf("heap/cells%d/rootrefs%d/cellrefs%d", minInt(len(cells), 6), minInt(refs, 6), minInt(nested, 6)))
+	}
+	for _, e := range elems {
+		T := e.t.Text()
+		PT := L("22", T)
+		ref := func(T string, a int) string { return L("26", T, Int(a)) }
+		// one cell, reached 2..4 times from a slice / array / struct / interface / map
+		c0 := []string{L(T, e.v(0))}
+		heapCase(c0, L("23", PT, "0", L(ref(T, 0), ref(T, 0))), "exh-heap")
+		heapCase(c0, L("17", PT, L(ref(T, 0), ref(T, 0), ref(T, 0))), "exh-heap")
+		heapCase(c0, L("25", L(ref(T, 0), L("20", "0", L(ref(T, 0))))), "exh-heap")
+		heapCase(c0, L("21", "[24]", PT, "0", L(L(L("24", Str("a")), ref(T, 0)), L(L("24", Str("b")), ref(T, 0)))), "exh-heap")
+		heapCase(c0, L("23", PT, "0", L(ref(T, 0), L("22", T, L(e.v(0))), ref(T, 0), L("22", T, L()))), "exh-heap")
+		heapCase(c0, ref(T, 0), "exh-heap")
+		// two cells of the same type
+		heapCase([]string{L(T, e.v(0)), L(T, e.v(1))}, L("23", PT, "0", L(ref(T, 1), ref(T, 0), ref(T, 1), ref(T, 0), ref(T, 1))), "exh-heap")
+		// a cell holding a pointer to a cell: **T shared at both levels
+		heapCase([]string{L(T, e.v(0)), L(PT, ref(T, 0))}, L("23", L("22", PT), "0", L(ref(PT, 1), ref(PT, 1), L("22", PT, L(ref(T, 0))))), "exh-heap")
+		// a tower of diamonds: cell k+1 = struct{a, b *cell k}; the unfolding doubles at every level
+		cells, ct := []string{L(T, e.v(0))}, T
+		for k := 0; k < 5; k++ {
+			nt := L("25", L(L("22", ct), L("22", ct)))
+			cells = append(cells, L(nt, L("25", L(ref(ct, k), ref(ct, k)))))
+			ct = nt
+			heapCase(cells, L("23", L("22", ct), "0", L(ref(ct, k+1), ref(ct, k+1))), "exh-heap")
+		}
+	}
+	g.Exhaust = append(g.Exhaust, fmt.Sprintf("heaps: one or two cells referenced 1..5 times from each container kind, a shared **T, towers of 1..5 diamonds (unfolding 4..64 copies) x %d element types", len(elems)))
+	// random ordered heaps: every cell may point to earlier cells
+	var htype func(depth int, cellTs []*c20T) *c20T
+	htype = func(depth int, cellTs []*c20T) *c20T {
+		if depth <= 0 {
+			return c20RandType(g.R, 0, false)
+		}
+		switch g.R.Intn(8) {
+		case 0, 1, 2:
+			if len(cellTs) > 0 {
+				return &c20T{K: 22, Elem: cellTs[g.R.Intn(len(cellTs))]}
+			}
+		case 3:
+			t := &c20T{K: 25}
+			for i, n := 0, g.R.Pick(1, 2, 2, 3); i < n; i++ {
+				t.Fields = append(t.Fields, htype(depth-1, cellTs))
+			}
+			return t
+		case 4:
+			return &c20T{K: 23, Elem: htype(depth-1, cellTs)}
+		case 5:
+			return &c20T{K: 17, Elem: htype(depth-1, cellTs), N: g.R.Pick(1, 2, 3)}
+		case 6:
+			return &c20T{K: 21, Key: c20S(g.R.Pick(24, 5, 7)), Elem: htype(depth-1, cellTs)}
+		}
+		return c20RandType(g.R, minInt(depth, 2), false)
+	}
+	for k, n := 0, g.N(1500, 30000); k < n; k++ {
+		gen.reset(g.R.Pick(0, 0, 3))
+		gen.budget = g.R.Pick(20, 60, 150)
+		cellTs, cells := []*c20T{}, []string{}
+		for i, nc := 0, g.R.Pick(1, 2, 2, 3, 4, 6); i < nc; i++ {
+			var t *c20T
+			for {
+				t = htype(g.R.Pick(0, 1, 2, 2), cellTs)
+				if t.K != 20 {
+					break
+				}
+			}
+			cells = append(cells, L(t.Text(), gen.val(t, 4)))
+			cellTs = append(cellTs, t)
+			gen.cells[t.Text()] = append(gen.cells[t.Text()], i)
+		}
+		var rt *c20T
+		for {
+			rt = htype(g.R.Pick(1, 2, 3), cellTs)
+			if rt.K != 20 {
+				break
+			}
+		}
+		root := gen.val(rt, 5)
+		if len(root)+len(strings.Join(cells, "")) > 6000 {
+			k--
+			continue
+		}
+		heapCase(cells, root, "rand-heap")
+	}
+	gen.reset(0)
+
+
+	// (3f) the whole report on a grid: every depth in -2..6 x every maxItem in -1..5 (and 100), with and
+	// without an average, on the value of TestSizeStat (behind a pointer and in a slice) and on a few shapes
+	{
+		i32s := func(xs ...int) string {
+			return L("23", "[5]", "0", rep(len(xs), func(i int) string { return L("5", Int(xs[i])) }))
+		}
+		my := func(a, b, c, d, e, f, g, h string) string { return L("25", L(a, b, c, d, e, f, g, h)) }
+		zb, zc := L("17", "[5]", L("[5,0]", "[5,0]", "[5,0]")), L("21", "[24]", "[3]", "1", L())
+		zd, ze, zf, zg := L("22", "[27]", L()), L("23", "[22,[27]]", "1", L()), L("23", "[24]", "1", L()), L("20", "1", L())
+		only := func(a string) string { return my(a, zb, zc, zd, ze, zf, zg, zg) }
+		pm := func(x string) string { return L("22", "[27]", L(x)) }
+		tv := my(i32s(1, 2, 3), L("17", "[5]", L("[5,4]", "[5,5]", "[5,6]")),
+			L("21", "[24]", "[3]", "0", L(L(L("24", Str("abc")), "[3,3]"))),
+			pm(only(i32s(1, 2))),
+			L("23", "[22,[27]]", "0", L(pm(only(i32s(1, 2, 3))), pm(only(i32s(2, 3, 4))))),
+			L("23", "[24]", "0", L(L("24", Str("abc")), L("24", Str("def")))),
+			zg, L("20", "1", L("[22,[5],[[5,3]]]")))
+		shapesG := []string{
+			pm(tv),
+			L("23", "[27]", "0", L(tv)),
+			L("23", "[23,[3]]", "0", rep(6, func(i int) string { return L("23", "[3]", "0", rep(i, func(j int) string { return L("3", Int(j)) })) })),
+			L("17", "[17,[24],2]", rep(3, func(i int) string { return L("17", "[24]", L(L("24", Str("a")), L("24", Str("bcd")))) })),
+			L("25", L(L("22", "[22,[22,[7]]]", L(L("22", "[22,[7]]", L(L("22", "[7]", L("[7,1]")))))), L("20", "0", L(L("22", "[20,0]", L("[20,0,[]]")))), "[12,5]")),
+			L("21", "[5]", "[23,[24]]", "0", L(L("[5,7]", L("23", "[24]", "0", L(L("24", Str("x")), L("24", Str("yy")), L("24", Str("zzz"))))))),
+			L("23", "[20,0]", "0", L("[20,0,[]]", L("20", "0", L(L("23", "[1]", "0", L("[1,1]", "[1,0]")))), L("20", "0", L(L("22", "[16]", L("[16,1]")))))),
+		}
+		for _, text := range shapesG {
+			v, err := ParseVal(text)
+			if err != nil {
+				c20Fatal("grid: %v", err)
+			}
+			lab, stable := c20Labels(v)
+			if !stable {
+				c20Fatal("grid: unstable labels")
+			}
+			key, _ := c20Key(text)
+			for d := -2; d <= 6; d++ {
+				for _, m := range []int{-1, 0, 1, 2, 3, 4, 5, 100} {
+					g.Stat("exh-report-grid")
+					report(text, v, lab, key, d, m, 0, L())
+					if (d+m)%3 == 0 {
+						report(text, v, lab, key, d, m, g.R.Pick(1, 3, 10, 1000), []string{L(), L("-3"), L("2")}[g.R.Intn(3)])
+					}
+				}
+			}
+			report(text, v, lab, key, 11, 100, 0, L())
+			report(text, v, lab, key, 11, 100, 10, L())
+		}
+		// averages that are exact ties at the third decimal (k/16 = .0625 k): round-half-even of the exact value
+		for k := 0; k <= 17; k++ {
+			text := L("17", "[1]", rep(k, func(i int) string { return L("1", Int(i&1)) }))
+			v, _ := ParseVal(text)
+			lab, _ := c20Labels(v)
+			for _, au := range [][2]string{{"16", L()}, {"2", L("3")}, {"1", L("4")}, {"64", L("-2")}, {"32", L()}, {"3", L()}, {"1", L("-1")}} {
+				avg, _ := strconv.Atoi(au[0])
+				g.Stat("exh-report-avg-ties")
+				report(text, v, lab, "", 0, 0, avg, au[1])
+			}
+		}
+		g.Exhaust = append(g.Exhaust, "averages: sizes 0..17 over AvgOf/AvgUnit combinations with quotient k/16, k/32, k/3, 2k (exact ties at the third decimal included)")
+		g.Exhaust = append(g.Exhaust, fmt.Sprintf("whole report: depth -2..6 x maxItem {-1..5,100} on %d fixed values (the struct of TestSizeStat behind a pointer and in a slice, slices of slices of length 0..5, arrays of arrays, a chain of pointers, nested interfaces, a map of slices)", len(shapesG)))
+	}
+
+	// (3c) slices / arrays whose elements are ARRAYS of non-scalars: outer x array length x inner shape x leaf type
+	for _, e := range inner {
+		e := e
+		for _, in := range all {
+			in := in
+			it := shapeType(in, e)
+			for _, n := range []int{1, 2, 3} {
+				at := &c20T{K: 17, Elem: it, N: n}
+				arr := func(base int) string {
+					return L("17", it.Text(), rep(n, func(i int) string {
+						return in.mk(e, func(j int) string { return leafVal(e, base+2*i+j) })
+					}))
+				}
+				emit(L("23", at.Text(), "0", rep(2, func(i int) string { return arr(3 * i) })), "exh-arrays")
+				emit(L("17", at.Text(), rep(2, func(i int) string { return arr(3 * i) })), "exh-arrays")
+				emit(L("23", L("17", at.Text(), "1"), "0", L(L("17", at.Text(), L(arr(1))))), "exh-arrays")
+			}
+		}
+	}
+	g.Exhaust = append(g.Exhaust, fmt.Sprintf("arrays of non-scalars: []([n]X), [2][n]X, [][1][n]X for n in 1..3, X over the %d container shapes x %d leaf types", len(all), len(inner)))
+
 	// (4) hand-declared types: unexported fields, a recursive type, a method-carrying interface
 	for k := 0; k < g.N(40, 400); k++ {
 		t := c20S(g.R.Pick(c20KMy, c20KMy, c20KAB, c20KRI, c20KUU))
 		gen.budget = g.R.Pick(10, 40, 200)
+		gen.reset(g.R.Pick(0, 2, 3))
 		wrap := &c20T{K: g.R.Pick(22, 23), Elem: t}
 		emit(gen.val(wrap, g.R.Range(2, 6)), "named")
 	}
@@ -837,6 +1757,7 @@ func genC20(g *Gen) {
 			}
 		}
 		gen.budget = g.R.Pick(5, 20, 60, 150, 400)
+		gen.reset(g.R.Pick(0, 0, 2, 3, 5))
 		text := gen.val(t, depth+1)
 		if len(text) > 20000 {
 			k--
